@@ -257,6 +257,7 @@ func (sh *Shell) Exec(script string) ([]byte, error) {
 			words = append(words, toks[i].s)
 			i++
 		}
+		stageStart := len(r.out)
 		if !skip && len(words) > 0 {
 			status, signal = r.simple(words, redir, redirTo)
 			if signal != "" {
@@ -285,8 +286,11 @@ func (sh *Shell) Exec(script string) ([]byte, error) {
 			case "|":
 				// pipeline: every stage runs, the status is that of the last
 				// stage (bash without pipefail). Only stages that neither read
-				// stdin nor matter for stdout are used by the workloads.
-				r.out = nil
+				// stdin nor matter for stdout are used by the workloads. What the
+				// stage printed went into the pipe, not to the script's output.
+				if stageStart <= len(r.out) {
+					r.out = r.out[:stageStart]
+				}
 			default:
 				skip = false
 			}
